@@ -163,6 +163,10 @@ def cases(seed, tier):
             out.append({'group': g, 'seed': int(rng.integers(1 << 31))})
         for name in uni.CLASSES:
             out.append({'group': 'univariate', 'cls': name, 'seed': int(rng.integers(1 << 31))})
+    # every constructor-option set of the univariate classes at least once per run
+    for i, ms in enumerate(uni.model_specs(rng, 'quick')):
+        if ms.get('kwargs'):
+            out.append({'group': 'univariate', 'cls': ms['cls'], 'spec_index': i, 'seed': int(rng.integers(1 << 31))})
     return out
 
 
@@ -175,8 +179,15 @@ def _univariate(spec, ctx, g, rng):
         conts = dict(variants(data, rng, ('C', 'view', 'readonly')))
         conts['Series'] = pd.Series(data.copy(), index=np.arange(len(data))[::-1])
         model = None
-        for cname, X in conts.items():
-            m = uni.klass(name)()
+        # constructor options as well as defaults (a sub-sampling or resampling option touches the data differently)
+        optioned = [ms for ms in uni.model_specs(rng, 'quick') if ms['cls'] == name and ms.get('kwargs')]
+        for ci, (cname, X) in enumerate(conts.items()):
+            if 'spec_index' in spec or (optioned and (ci + spec['seed']) % 2):
+                ms = uni.model_specs(rng, 'quick')[spec['spec_index']] if 'spec_index' in spec else optioned[int(rng.integers(len(optioned)))]
+                m = uni.build(ms, data)
+                cname = cname + '|' + repr(ms.get('kwargs'))[:60]
+            else:
+                m = uni.klass(name)()
 
             def reseed():
                 np.random.seed(5)
